@@ -27,10 +27,16 @@ class SimIncompleteRead(SimTransportError):
     """Stands for the SDK's IncompleteReadError / ServiceResponseError."""
 
 
+LOCAL_EXC = ['OSError(EIO)', 'TimeoutError', 'ConnectionResetError', 'InterruptedError', 'OSError(ESTALE)',
+             'ValueError', 'EOFError', 'MemoryError']
+REMOTE_EXC = ['SimTransportError', 'TimeoutError', 'ConnectionResetError', 'SimIncompleteRead', 'OSError(EIO)',
+              'ValueError', 'EOFError', 'RuntimeError']
+
+
 def local_exception(arg):
     """The exception an injected local read failure raises; `arg` (seeded) selects the class so that
-    error handling written for one class only (ConnectionError, TimeoutError, EINTR ...) is met."""
-    k = (arg or 0) % 5
+    error handling written for one class only (ConnectionError, TimeoutError, EINTR, OSError ...) is met."""
+    k = (arg or 0) % len(LOCAL_EXC)
     if k == 0:
         return OSError(errno.EIO, 'Input/output error (injected)')
     if k == 1:
@@ -39,11 +45,17 @@ def local_exception(arg):
         return ConnectionResetError(errno.ECONNRESET, 'Connection reset by peer (injected)')
     if k == 3:
         return InterruptedError(errno.EINTR, 'Interrupted system call (injected)')
-    return OSError(errno.ESTALE, 'Stale file handle (injected)')
+    if k == 4:
+        return OSError(errno.ESTALE, 'Stale file handle (injected)')
+    if k == 5:
+        return ValueError('I/O operation on closed file (injected)')
+    if k == 6:
+        return EOFError('unexpected end of stream (injected)')
+    return MemoryError('cannot allocate read buffer (injected)')
 
 
 def remote_exception(arg, where):
-    k = (arg or 0) % 5
+    k = (arg or 0) % len(REMOTE_EXC)
     if k == 0:
         return SimTransportError(f'service unavailable during {where} (injected)')
     if k == 1:
@@ -52,7 +64,13 @@ def remote_exception(arg, where):
         return ConnectionResetError(errno.ECONNRESET, f'connection reset during {where} (injected)')
     if k == 3:
         return SimIncompleteRead(f'incomplete read during {where} (injected)')
-    return OSError(errno.EIO, f'I/O error during {where} (injected)')
+    if k == 4:
+        return OSError(errno.EIO, f'I/O error during {where} (injected)')
+    if k == 5:
+        return ValueError(f'malformed response during {where} (injected)')
+    if k == 6:
+        return EOFError(f'connection closed during {where} (injected)')
+    return RuntimeError(f'client closed during {where} (injected)')
 
 
 def _yp(kind, info=(), advance=0.0):
@@ -250,6 +268,9 @@ class SimFS:
                 img.extend(bytes(off - len(img)))
             return
         if kind in ('fsync', 'rename', 'remove'):
+            return
+        if kind == 'initial':
+            img[:] = data
             return
         if upto is not None:
             data = data[:upto]
@@ -455,6 +476,12 @@ class SimReadHandle(io.BufferedReader):
         if self._sim_closed:
             raise ValueError('seek of closed file')
         _yp('r.seek', info=(self._hid,))
+        fp = self._fs.faults
+        if fp.armed and fp.plan.get(fp.k, (None,))[0] == 'exception_seek':
+            k, fault = fp.next()          # the range read that starts with this seek is the faulted one
+            fp.fired.append((k, 'exception_seek', off, 0, _thread_name()))
+            self._fs.reqlog.append((self._fs.call_id, 'file', self._path, off, 0, -1, _thread_name()))
+            raise local_exception(fault[1] if len(fault) > 1 else 0)
         if whence == 0:
             pos = off
         elif whence == 1:
